@@ -27,21 +27,72 @@ def exotic_pickles():
     return out
 
 
+def cyclic_pickles():
+    import pickle
+    from ..genvalues import verif_nat
+    l = []
+    l.append(l)
+    d = {}
+    d["me"] = d
+    return [pickle.dumps(verif_nat.Plain(a=l), 2), pickle.dumps(verif_nat.Plain(a=d), 4), b"]2aQ0N.", b"cos\ngetpid\n]2a\x85R0N.",
+            pickle.dumps(l, 2), pickle.dumps([verif_nat.Plain(a=[l, d])], 3)]
+
+
+def _alarm(*_a):
+    raise TimeoutError("does not return")
+
+
+def returns(first_id, limit=5, only=None):
+    """every analysis of the default analyzer on its own, and the unused-variable query, on pickles whose call arguments are
+    self-referential containers (the program is built; its text is not): each comes back, with an answer or an exception"""
+    import signal
+    import fickling.analysis as an
+    from fickling.fickle import Interpreter, Pickled
+    asks = [("Interpreter.unused_variables", lambda p: Interpreter(p).unused_variables())]
+    for a in getattr(an.Analyzer.default_instance, "analyses", []) if hasattr(an.Analyzer, "default_instance") else []:
+        asks.append((type(a).__name__, lambda p, a=a: an.check_safety(p, analyzer=an.Analyzer([type(a)()]))))
+    recs = []
+    for data in cyclic_pickles():
+        for what, f in asks:
+            if only and (data.hex(), what) != only:
+                continue
+            old = signal.signal(signal.SIGALRM, _alarm)
+            signal.setitimer(signal.ITIMER_REAL, limit)
+            returned = True
+            try:
+                f(Pickled.load(data))
+            except TimeoutError:
+                returned = False
+            except BaseException:  # noqa: BLE001 - raising is coming back
+                pass
+            finally:
+                signal.setitimer(signal.ITIMER_REAL, 0)
+                signal.signal(signal.SIGALRM, old)
+            recs.append({"id": first_id + len(recs), "kind": "returns", "hex": data.hex(), "what": what, "returned": returned})
+    return recs
+
+
 def exotic(ctx):
     """-> (failures, evaluations): C19's clauses on pickles with exotic global names, judged by TLC on spec/TotalTrace.tla"""
     recs = []
     for data in exotic_pickles():
         f = rec_vm.record_fick(data, want=("dec", "chk"))
-        recs.append({"id": len(recs), "hex": data.hex(), "dec_ok": bool(f["dec"]["ok"]), "chk": f["chk"]})
+        recs.append({"id": len(recs), "kind": "verdict", "hex": data.hex(), "dec_ok": bool(f["dec"]["ok"]), "chk": f["chk"]})
+    recs += returns(len(recs))
     verdicts = tv.validate(ctx, "TotalTrace", recs)
     failures = []
     for r in recs:
         v = verdicts[r["id"]]["v"]
-        if v not in ("ok", "na", "refused"):
+        if v not in ("ok", "na", "refused") and r["kind"] == "returns":
+            failures.append({"clause": v, "opset": ["F:self-referential-argument"], "detail": "self-referential call argument hex=" + r["hex"][:100],
+                             "replay_obj": {"property": "C19", "clause": v, "record": {"hex": r["hex"], "prog": [], "tag": "returns", "what": r["what"]}}})
+        elif v not in ("ok", "na", "refused"):
             failures.append({"clause": v, "opset": ["F:exotic-global-name"], "detail": "exotic global name hex=" + r["hex"][:100],
                              "replay_obj": {"property": "C19", "clause": v, "record": {"hex": r["hex"], "prog": [], "tag": "exotic-name", "exotic": r}}})
     ctx.notes.append(f"pickles with global names outside the typed domain (non-ASCII, lone surrogate, quotes, blanks, newline, empty, long): "
-                     f"{len(recs)} judged by spec/TotalTrace.tla, {sum(1 for r in recs if r['dec_ok'])} decompile, {len(failures)} violate")
+                     f"{sum(1 for r in recs if r['kind'] == 'verdict')} judged by spec/TotalTrace.tla, {sum(1 for r in recs if r.get('dec_ok'))} decompile; "
+                     f"{sum(1 for r in recs if r['kind'] == 'returns')} single-analysis questions about self-referential call arguments (each must come back); "
+                     f"{len(failures)} violate")
     return failures, len(recs)
 
 
@@ -62,10 +113,19 @@ def run(ctx):
 def replay(ctx, path):
     import json
     obj = json.load(open(path))
+    if obj.get("record", {}).get("tag") == "returns":
+        r = obj["record"]
+        rs = returns(0, only=(r["hex"], r["what"]))
+        v = tv.validate(ctx, "TotalTrace", rs)[0]["v"] if rs else "ok"
+        if v != "ok":
+            print(f"VIOLATION property=C19 replay={path}   # {v}")
+            return 1
+        print("C19: replayed case now holds")
+        return 0
     if obj.get("record", {}).get("tag") == "exotic-name":
         data = bytes.fromhex(obj["record"]["hex"])
         f = rec_vm.record_fick(data, want=("dec", "chk"))
-        v = tv.validate(ctx, "TotalTrace", [{"id": 0, "hex": data.hex(), "dec_ok": bool(f["dec"]["ok"]), "chk": f["chk"]}])[0]["v"]
+        v = tv.validate(ctx, "TotalTrace", [{"id": 0, "kind": "verdict", "hex": data.hex(), "dec_ok": bool(f["dec"]["ok"]), "chk": f["chk"]}])[0]["v"]
         if v not in ("ok", "na", "refused"):
             print(f"VIOLATION property=C19 replay={path}   # {v}")
             return 1
